@@ -151,3 +151,50 @@ def shard_map(fn_mod, fn_name, items, extra=None, procs=None, chunk=None):
                 raise MachineryError("worker failed:\n" + val)
             out.extend(val)
     return out
+
+
+def watchdog_map(fn_mod, fn_name, items, per_item_timeout, procs=4, extra=None):
+    """Run fn([item], extra) in one forked child per item, killing children that exceed the timeout.
+
+    Returns a list of (item, result_or_None, hung:bool).  Used where the property itself says the call must
+    return (a hang is a verdict, not a machinery failure).
+    """
+    import concurrent.futures as cf
+    ctx = mp.get_context("fork")
+
+    def one(item):
+        parent, child = ctx.Pipe(duplex=False)
+
+        def target(conn):
+            try:
+                mod = __import__(fn_mod, fromlist=[fn_name])
+                res = getattr(mod, fn_name)([item], extra)
+                conn.send(("ok", res))
+            except BaseException:
+                conn.send(("err", traceback.format_exc()))
+            finally:
+                conn.close()
+                os._exit(0)
+        p = ctx.Process(target=target, args=(child,))
+        p.start()
+        child.close()
+        if parent.poll(per_item_timeout):
+            try:
+                status, val = parent.recv()
+            except EOFError:
+                status, val = "err", "child died without a result"
+            p.join(5)
+            if p.is_alive():
+                p.kill()
+            return (item, status, val, False)
+        p.kill()
+        p.join(5)
+        return (item, "hung", None, True)
+    out = []
+    with cf.ThreadPoolExecutor(max_workers=procs) as ex:
+        for item, status, val, hung in ex.map(one, list(items)):
+            if status == "err":
+                from .tlc import MachineryError
+                raise MachineryError("worker failed:\n" + str(val))
+            out.append((item, val[0] if val else None, hung))
+    return out
